@@ -133,6 +133,39 @@ func init() {
 		},
 		Assumptions: []string{"string values written by the workload never embed a complete Parquet file (a prefix ending in an embedded valid file is indistinguishable from a complete file)"},
 	})
+	addSpec(&Spec{ID: "C04", Title: "the reader decodes every conformant file of the supported subset", Level: "exploration",
+		Shapes: portfolioMain,
+		Rule: "files written by the independent reference writer (ref/pqfile) from shredded records, every encoding freedom drawn per file: level run segmentation (styles mixed/rle-only/bp-only/big-bp/tiny, " +
+			"incl. length-1 RLE runs and > 63-group bit-packed runs), page boundaries per column at any record boundary, codec per chunk, literal-only or copy snappy, gzip levels, statistics present/partial/absent, " +
+			"crc, optional and unknown thrift fields, long-form field headers, opaque bytes before the footer; each file re-validated by the reference parser, then read by the generated reader; " +
+			"distinct = hash of the choice vector; all files non-trivial (none is what the repository's writer would emit)",
+		Require: []string{"bitpacked_runs_over_63_groups", "run_header_bytes_2", "rle_runs_of_length_1", "streams_mixing_run_kinds", "mixed_codec_files", "files_with_per_column_page_splits",
+			"option_created_by", "option_key_value_metadata", "option_column_orders", "option_gap_before_footer", "option_unknown_footer_fields"},
+	})
+	addSpec(&Spec{ID: "C12", Title: "page statistics are sound bounds and exact null counts", Level: "exploration",
+		Shapes: []string{"p1", "p2", "p8"},
+		Rule: "files from P1/P2/P8 with value multisets aimed at accumulator bugs (all-negative, all-equal, extremes, unsigned above the signed maximum, float specials, all-NaN, hostile strings incl. the stats sentinel, " +
+			"all-null pages), page sizes 1,2,3,5,1000; every page's Statistics compared with values and levels decoded by the reference in the column's order; distinct = case id; non-trivial = multi-page chunk or multi-row-group file",
+		Require: []string{"null_count_checked_nonzero", "pages_all_null", "pages_with_nan", "pages_with_sentinel_string"},
+		RequireFn: func(r *Run) []string {
+			var out []string
+			for _, t := range []string{"int32", "uint32", "int64", "uint64", "float", "double", "bytes"} {
+				for _, rep := range []string{"required", "optional", "repeated"} {
+					if r.M.Counters["minmax_"+t+"_"+rep] == 0 {
+						out = append(out, "no page with min/max seen for "+t+" "+rep)
+					}
+				}
+			}
+			return out
+		},
+	})
+	addSpec(&Spec{ID: "C16", Title: "introspection calls report exactly what is in the file", Level: "exploration",
+		Shapes: portfolioMain,
+		Rule: "library-written files (C01 workload, reduced) and foreign-written files (C04 writer, optional/unknown metadata present); ReadMetaData converted to a field-id tree by reflection and compared with the reference decode of the footer " +
+			"(restricted to field ids the repository's thrift schema knows); PageHeaders and PageHeadersAtOffset(chunk start, chunk num_values / 0) compared header by header with an independent page walk; " +
+			"distinct = layout (shape, row groups, pages per chunk, codecs, options); non-trivial = >= 2 row groups or a multi-page chunk",
+		Require: []string{"files_library_written", "files_foreign_written", "files_with_3_pages_and_2_row_groups", "atoffset_calls"},
+	})
 }
 
 func runCheck(prop, tier string, seed int64, only string) int {
